@@ -23,6 +23,11 @@ type World struct {
 	BMC *simbmc.BMC
 	Net *memnet.Net
 	T   *bmc.V2SessionlessTransport
+
+	// OnSend, if set, runs at the start of every Send (before cancellation).
+	OnSend   func(n int, d []byte)
+	cancelAt int
+	cancelFn context.CancelFunc
 }
 
 // NewWorld wires a fresh BMC, transport and library connection. The back-off is
@@ -31,24 +36,25 @@ func NewWorld(seed uint64, strict bool) *World {
 	b := simbmc.New(seed)
 	n := &memnet.Net{Peer: b.Peer, Strict: strict, Poison: 0xA5}
 	t := bmc.NewV2SessionlessTransportForVerif(n, time.Hour, &backoff.ZeroBackOff{})
-	return &World{BMC: b, Net: n, T: t}
+	w := &World{BMC: b, Net: n, T: t}
+	n.OnSend = func(k int, d []byte) {
+		if w.OnSend != nil {
+			w.OnSend(k, d)
+		}
+		if w.cancelFn != nil && k >= w.cancelAt {
+			w.cancelFn()
+		}
+	}
+	return w
 }
 
 // Ctx returns a context that the harness cancels inside the k-th Send counted
 // from now (so "expiry" is deterministic and clock-free). k <= 0 never cancels.
 func (w *World) Ctx(k int) (context.Context, context.CancelFunc) {
 	ctx, cancel := context.WithCancel(context.Background())
+	w.cancelAt, w.cancelFn = 0, nil
 	if k > 0 {
-		base := w.Net.Sends
-		prev := w.Net.OnSend
-		w.Net.OnSend = func(n int, d []byte) {
-			if prev != nil {
-				prev(n, d)
-			}
-			if n-base >= k {
-				cancel()
-			}
-		}
+		w.cancelAt, w.cancelFn = w.Net.Sends+k, cancel
 	}
 	return ctx, cancel
 }
